@@ -109,7 +109,7 @@ def _bind_one(target: str, c: Contract) -> None:
             raise BindingError(f"contract target {target} not found in the current source: {e}") from e
         a = fi.node.args
         params = {p.arg for p in list(a.posonlyargs) + list(a.args) + list(a.kwonlyargs)}
-        allowed = params | {"result", "exc0", "exc1"} | set(c.ghost)
+        allowed = params | {"result", "ret", "exc0", "exc1"} | set(c.ghost)
         lams: list[ast.expr] = list(c.clauses.values()) + list(c.raises.values())
         for lam in lams:
             if isinstance(lam, ast.Lambda):
